@@ -46,6 +46,10 @@ def run(ctx):
     # each strategy is guarded by its own breaker type, on the fresh and on the statistics-reusing branch of its generator
     from . import gentable
     gentable.check(ctx, f, "circuitbreaker", cfg, "C03.generators")
+    # every breaker counts in its own window: a statistics object handed to a new breaker leaves the old list, so that no two
+    # breakers of one resource share (and double-count, or reset) one window
+    from . import rules_C11
+    rules_C11.rebuild(ctx, f, "circuitbreaker", "build_resource_circuit_breaker", cfg, R="C03.window/one-per-breaker")
 
 
 def transitions(ctx, f, lm, cfg, P):
